@@ -102,8 +102,8 @@ def run_carrier(chk, prop, exprs, part='carrier'):
             # (nothing to compare with; counted, not judged)
             chk.skip('carrier: float64 reference raises', 1)
             continue
-        if isinstance(got, Exception) and c['carrier'] in ('longdouble', 'masked'):
-            # an extended-precision or masked array refused loudly: no property promises these wrappers are accepted; what is
+        if isinstance(got, Exception) and c['carrier'] in ('longdouble', 'masked', 'big-endian'):
+            # an extended-precision, masked or byte-swapped array refused loudly: no property promises these are accepted; what is
             # required is that an accepted one gives the result of the values it holds
             chk.skip('carrier: %s refused' % c['carrier'], 1)
             continue
